@@ -48,6 +48,9 @@ pub fn signer_templates() -> Vec<RSignature> {
     vec![
         RSignature { protected: RProtected { original: None, header: headers()[1].clone() }, unprotected: RHeader::default(), signature: b"preset".to_vec() },
         RSignature { protected: RProtected::default(), unprotected: s[1].unprotected.clone(), signature: vec![] },
+        // a signer that was itself parsed from the wire: its protected bytes are non-canonical
+        // (indefinite-length map, non-minimal integer) and must be what is signed and what is kept
+        RSignature { protected: RProtected { original: Some(vec![0xbf, 0x01, 0x38, 0x06, 0xff]), header: headers()[1].clone() }, unprotected: RHeader::default(), signature: vec![] },
     ]
 }
 pub const REC_CTX: [EncryptionContext; 4] = [EncryptionContext::EncRecipient, EncryptionContext::MacRecipient, EncryptionContext::RecRecipient, EncryptionContext::CoseEncrypt];
@@ -90,6 +93,7 @@ pub fn ops_of(kind: Kind) -> Vec<MOp> {
         }
         Kind::Sign => {
             v.extend([MOp::Payload(0), MOp::Payload(1), MOp::AddSignature(0), MOp::AddSignature(1)]);
+            v.extend([MOp::AddCreated { sig: 2, aad: 0 }, MOp::AddDetached { sig: 2, payload: 0, aad: 1 }, MOp::TryAddCreated { sig: 2, aad: 1, ok: true }, MOp::TryAddDetached { sig: 2, payload: 1, aad: 0, ok: true }]);
             for sig in 0..2 {
                 for aad in 0..2 {
                     v.push(MOp::AddCreated { sig, aad });
